@@ -30,6 +30,7 @@ EXPLANATION = (
 def run(ctx: Ctx) -> None:
     from ..rules import shapes as _shapes
     _shapes.rule_relabel_map_self(ctx)
+    _shapes.rule_relabel_map_direction(ctx)
     from ..rules import memo as _memo
     _memo.rule_memo_sound(ctx, ['graphiq/solvers/alternate_target_solver.py', 'graphiq/utils/relabel_module.py'])
     tables.rule_config_domain(ctx, ATS, "AlternateTargetSolver.solve", "AlternateTargetSolverSetting", "lc_method")
@@ -303,6 +304,7 @@ def rule_str_to_op(ctx: Ctx) -> None:
 
 
 KNOCKOUTS = [
+    Knockout("relabel-map-swapped", "graphiq/utils/relabel_module.py", sub_once("    GM = isomorphism.GraphMatcher(g1, g2)", "    GM = isomorphism.GraphMatcher(g2, g1)"), "relabel.map-direction", "swapped"),
     Knockout("relabel-map-identity", "graphiq/utils/relabel_module.py", sub_once('return {**{-1: "self"}, **dict(zip(g1.nodes(), g2.nodes()))}', 'return {**{-1: "self"}, **dict(zip(g1.nodes(), g1.nodes()))}'), "relabel.map-self", "not the position pairing"),
     Knockout("dedup-filtered", ATS, sub_once('adj_list = [nx.to_numpy_array(result[1]["g"]) for result in results_list]', 'adj_list = [nx.to_numpy_array(result[1]["g"]) for result in results_list if result[1]["score"] > 0]'), "dedup.covers-all", "does not see every entry"),
     Knockout("conversion-skipped-by-index", ATS, sub_once("                if not lc_graph.adj == iso_graph.adj:", "                if lc_graphs.index(lc_graph) > 0:"), "conv.guard", "not guarded by graph equality"),
